@@ -400,6 +400,11 @@ wrapped_interval<Number>::mk_winterval(Number lb, Number ub,
     CRAB_WARN(ub,
               " does not fit into a wrapint. Returned top wrapped interval");
     return wrapped_interval<Number>::top();
+  } else if (ub - lb >=
+             Number(wrapint::get_unsigned_max(width).get_unsigned_bignum())) {
+    // [lb, ub] has 2^width or more elements: it covers all the bit
+    // patterns (the wrapped bounds would describe only some of them)
+    return wrapped_interval<Number>::top();
   } else {
     return wrapped_interval<Number>(wrapint(lb, width), wrapint(ub, width));
   }
